@@ -44,7 +44,9 @@ def gen_expr(rng, lo, hi, depth, need_var=True, topop=None):
             return v, "(EVar %s)" % vf.vrunes(v), False
         top = min(hi, 2 ** 63 - 1)
         z = rng.choice([1, 2, 3, 7, top, top - 1, top // 2, rng.randint(1, min(top, 1000))])
-        return str(z), "(EConst %d)" % z, True
+        if lo < 0 and rng.random() < 0.4:
+            z = -z        # printed as gofmt prints it: `a - -4` (binary minus, space, unary minus)
+        return str(z), "(EConst (%d))" % z, True
     op, cop = topop or rng.choice(OPS)
     l = gen_expr(rng, lo, hi, depth - 1, need_var=False)
     r = gen_expr(rng, lo, hi, depth - 1, need_var=l[2])
@@ -68,6 +70,55 @@ def gen_core(rng, idx, kind=None, topop=None):
     return p
 
 
+ADJ_CORPUS = """func prog@() {
+	var x int8 = 100
+	var s int8 = 7
+	t := true
+	u := false
+	fmt.Println(x - -4, x - -s, x + -s, x * -s, x / -s)
+	fmt.Println(x < -s, x == -s, -x <= -s, x != -s, -x - -s)
+	fmt.Println(t && !u, !t || !u, t == !u, !t != !u)
+	p := &x
+	fmt.Println(s * *p, s / *p, s - *p)
+	x = -x
+	s = - -s
+	fmt.Println(x, s)
+	step := 3
+	total := 10
+	for i := 3; i > 0; i-- {
+		total = total - -step
+	}
+	total--
+	fmt.Println(total, total - -1)
+}
+"""
+SIGNED = [k for k in KINDS if k[2] < 0]
+
+
+def gen_adjacent(rng, idx):
+    """operator adjacency as gofmt prints it: a binary operator followed by a unary minus / not / dereference"""
+    gk, _, lo, hi = rng.choice(SIGNED)
+    top = min(hi, 1000)
+    x, s = rng.randint(1, top), rng.randint(1, min(top, 9))
+    lines = ["\tvar x %s = %d" % (gk, x), "\tvar s %s = %d" % (gk, s), "\tp := &s", "\tt := %s" % rng.choice(["true", "false"]),
+             "\tu := %s" % rng.choice(["true", "false"])]
+    ar, cmp_ = ["+", "-", "*", "/"], ["<", "<=", "==", "!=", ">", ">="]
+    ops = ["-x", "-s", "-%d" % rng.randint(1, min(top, 100)), "*p", "-*p", "- -s"]
+    exprs = []
+    for _ in range(rng.randint(3, 6)):
+        r = rng.random()
+        if r < 0.55:
+            exprs.append("%s %s %s" % (rng.choice(["x", "s", "-x"]), rng.choice(ar), rng.choice(ops)))
+        elif r < 0.8:
+            exprs.append("%s %s %s" % (rng.choice(["x", "s", "-x"]), rng.choice(cmp_), rng.choice(ops)))
+        else:
+            exprs.append("%s %s %s" % (rng.choice(["t", "!t"]), rng.choice(["&&", "||", "==", "!="]), rng.choice(["!u", "u"])))
+    exprs += ["s - -*p", "t == !u"]          # every declared variable is used (Go rejects unused ones)
+    lines.append("\tfmt.Println(%s)" % ", ".join(exprs))
+    lines.append("\tx = x - -s\n\tx--\n\tx = -x\n\tfmt.Println(x, x - -1)")
+    return gw.from_template("func prog@() {\n%s\n}\n" % "\n".join(lines), idx)
+
+
 def outcome(out, abort):
     """('ok', z) | ('panic',) | ('other', text)"""
     if abort:
@@ -82,7 +133,7 @@ def run(ck):
     quick = ck.tier == "quick"
     ck.cov["rule"] = ("core: every integer kind x every operator at the top (36 programs) + random ones; three variables with boundary/random values, an expression tree of depth 1-3 "
                       "over + - * / (division by a variable that may be zero) printed once; wide: lib/gosub_wide.py clean feature "
-                      "set. distinct_nontrivial = distinct core expressions whose Go run printed a value or panicked + wide programs "
+                      "set + operator-adjacency programs (binary operator followed by unary minus / not / dereference, spaced as gofmt prints them; all three modes). distinct_nontrivial = distinct core expressions whose Go run printed a value or panicked + wide programs "
                       "that printed at least one line")
     ck.assume("Go evaluates operands left to right and converts an untyped literal to the operand's kind (Go spec); the reference "
               "semantics go_eval is validated against the real toolchain on every run",
@@ -102,6 +153,11 @@ def run(ck):
     core += [gen_core(ck.rng, "c%d" % i) for i in range(ncore)]
     # regression corpus first: the refuted cell (confirmed as a known finding) is NOT in the clean stream
     wide = [gw.gen_program(ck.rng, "w%d" % i) for i in range(nwide)]
+    nadj = 6 if quick else 60
+    adj = [gw.from_template(ADJ_CORPUS, "adj0")] + [gen_adjacent(ck.rng, "adj%d" % (i + 1)) for i in range(nadj)]
+    for p in adj:
+        p["features"] = ["operator-adjacency"]
+    wide = adj + wide
     cc = gw.from_template("func prog@() {\n\tvar x int8 = 127\n\ty := x + (1 + 2)\n\tfmt.Println(y)\n}\n", "kcc")
     if ck.replay_file:
         rp = json.load(open(ck.replay_file))["replay"]
@@ -121,7 +177,8 @@ def run(ck):
     gobin = os.path.join(work, "batch.bin")
     modes = {"dynamic": by}
     for mode in ("strict", "relaxed"):
-        r2 = gw.run_batch(core, os.path.join(ck.work, "diff-" + mode), ego=ego, ego_args=("--types", mode), jobs=8, go_bin=gobin)
+        r2 = gw.run_batch(core + [p for p in wide if p.get("features") == ["operator-adjacency"]],
+                          os.path.join(ck.work, "diff-" + mode), ego=ego, ego_args=("--types", mode), jobs=8, go_bin=gobin)
         modes[mode] = {r["id"]: r for r in r2}
 
     nontriv = set()
